@@ -27,6 +27,8 @@ func errCode(err error) int {
 			return 5
 		case "truncated headers":
 			return 6
+		case "dynamic table size update MUST occur at the beginning of a header block":
+			return 8
 		}
 		return 50
 	}
@@ -199,8 +201,15 @@ func genBlock(r *hv.Rng, mx int) ([]byte, string) {
 	label := "valid"
 	dyn := 0 // rough count of dynamic entries
 	nrep := r.Range(1, 10)
+	leading := r.Intn(3) // size updates at the beginning of the block
 	for k := 0; k < nrep; k++ {
-		switch r.Intn(10) {
+		sel := r.Intn(10)
+		if k < leading {
+			sel = 8
+		} else if sel == 8 && !r.Chance(1, 3) {
+			sel = r.Intn(8) // most blocks have no late size update
+		}
+		switch sel {
 		case 0, 1, 2: // indexed
 			idx := uint64(r.Range(1, 61+dyn))
 			if r.Chance(1, 15) {
@@ -247,6 +256,12 @@ func genBlock(r *hv.Rng, mx int) ([]byte, string) {
 			case 3:
 				v = uint64(mx) + uint64(r.Range(1, 1<<20))
 				label = "size-too-large"
+			case 4: // would fit after truncation to uint32
+				v = uint64(1)<<32*uint64(r.Range(1, 3)) + uint64(r.Range(0, mx))
+				label = "size-over-2^32"
+			}
+			if k >= leading && k > 0 && label == "valid" {
+				label = "size-update-late"
 			}
 			b = append(b, varint(5, v, 0x20, r)...)
 			if v < 64 {
